@@ -86,6 +86,65 @@ theorem fifo (evs : List Event) (d : Client) :
     ((run init evs).get d = none → ∃ r, sbytes (run init evs).out d ++ r = qbytes (run init evs).out d) :=
   ⟨(fifo_run evs).alive d, (fifo_run evs).dead d⟩
 
+/-- `C25.delivery`, at the moment the bridge comes into being: handle_identity_ready queues for the partner the
+    BEGIN line followed by *everything* the connector had sent and the relay had not consumed (identity and any
+    pipelined bytes, in order), and leaves the connector's read buffer empty: nothing sent with or after the
+    identity is lost or reordered. -/
+theorem bridge_handover (evs : List Event) (c : Client) (s : Session)
+    (hc : (run init evs).get c = some s) (hst : s.state = .awaitingIdentity) :
+    ∃ t, s.partner = some t ∧
+      qbytes (newOuts (run init evs) (handleIdentityReady (run init evs) c)) t =
+        EphVerif.Gen.C25.beginPrefix ++ s.connectSelf ++ [nl] ++ s.readBuf ∧
+      ((handleIdentityReady (run init evs) c).get c).map (·.readBuf) = some [] := by
+  obtain ⟨hI, _⟩ := run_ok evs
+  generalize run init evs = σ at hI hc
+  obtain ⟨t, ts, hp, hne, ht, htp, hts, heq⟩ := handleIdentityReady_eq hI hc hst
+  have hcn : c ≠ t := fun e => hne e.symm
+  refine ⟨t, hp, ?_, ?_⟩
+  · rw [heq]
+    simp only
+    split
+    next hrest =>
+      have hr : s.readBuf.take EphVerif.Gen.C25.kPeerIdBytes = s.readBuf := by
+        have : s.readBuf.drop EphVerif.Gen.C25.kPeerIdBytes = [] := by simpa using hrest
+        have h2 := List.take_append_drop EphVerif.Gen.C25.kPeerIdBytes s.readBuf
+        rw [this] at h2; simpa using h2
+      have ho : (queue (((queue σ t (.ctrl (EphVerif.Gen.C25.beginPrefix ++ s.connectSelf ++ [nl]))).put c { s with readBuf := [], state := .bridged }).put t
+          { ts with writeBuf := ts.writeBuf ++ (EphVerif.Gen.C25.beginPrefix ++ s.connectSelf ++ [nl]), state := .bridged }) t
+            (.relay c (s.readBuf.take EphVerif.Gen.C25.kPeerIdBytes))).out =
+          [.queued t (.relay c (s.readBuf.take EphVerif.Gen.C25.kPeerIdBytes)), .queued t (.ctrl (EphVerif.Gen.C25.beginPrefix ++ s.connectSelf ++ [nl]))] ++ σ.out := by
+        simp [queue, ht, get_put]
+      rw [newOuts_eq ho]
+      simp [qbytes, Item.bytes, hr]
+    next hrest =>
+      have ho : (queue (queue (((queue σ t (.ctrl (EphVerif.Gen.C25.beginPrefix ++ s.connectSelf ++ [nl]))).put c { s with readBuf := [], state := .bridged }).put t
+          { ts with writeBuf := ts.writeBuf ++ (EphVerif.Gen.C25.beginPrefix ++ s.connectSelf ++ [nl]), state := .bridged }) t
+            (.relay c (s.readBuf.take EphVerif.Gen.C25.kPeerIdBytes))) t (.relay c (s.readBuf.drop EphVerif.Gen.C25.kPeerIdBytes))).out =
+          [.queued t (.relay c (s.readBuf.drop EphVerif.Gen.C25.kPeerIdBytes)), .queued t (.relay c (s.readBuf.take EphVerif.Gen.C25.kPeerIdBytes)),
+            .queued t (.ctrl (EphVerif.Gen.C25.beginPrefix ++ s.connectSelf ++ [nl]))] ++ σ.out := by
+        simp [queue, ht, get_put]
+      rw [newOuts_eq ho]
+      simp [qbytes, Item.bytes]
+  · obtain ⟨_, s', hs', _, hr'⟩ := calm_handleIdentityReady hI hc hst
+    simp [hs', hr']
+
+/-- `bridge_handover` in the words of the specification (`pending` = the connector's unconsumed bytes) -/
+theorem bridge_handover_spec (evs : List Event) (c : Client) (s : Session)
+    (hc : (run init evs).get c = some s) (hst : s.state = .awaitingIdentity)
+    (hlen : EphVerif.Gen.C25.kPeerIdBytes ≤ s.readBuf.length) :
+    ∃ t, s.partner = some t ∧
+      BridgeHandover 32 s.readBuf
+        ((qbytes (newOuts (run init evs) (handleIdentityReady (run init evs) c)) t).drop
+          (EphVerif.Gen.C25.beginPrefix ++ s.connectSelf ++ [nl]).length) := by
+  obtain ⟨t, hp, hq, _⟩ := bridge_handover evs c s hc hst
+  refine ⟨t, hp, ?_⟩
+  rw [hq]
+  have h32 : EphVerif.Gen.C25.kPeerIdBytes = 32 := rfl
+  have hd : ((EphVerif.Gen.C25.beginPrefix ++ s.connectSelf ++ [nl]) ++ s.readBuf).drop
+      (EphVerif.Gen.C25.beginPrefix ++ s.connectSelf ++ [nl]).length = s.readBuf := List.drop_left
+  rw [hd]
+  exact ⟨by omega, by simp⟩
+
 /-- `C25.delivery` (specification form) -/
 theorem delivery_spec (evs : List Event) (c : Client) (data : Bytes) :
     Delivery (viewOf (run init evs)) c (some data)
